@@ -1,16 +1,790 @@
-//! Suite C14 (stub — replaced when the property's harness is built).
-#![allow(dead_code, unused_imports)]
+//! C14: `LoRa<RK, DLY>` (lora-phy/src/lib.rs) of the real crate over the fake chips: sequences of API
+//! calls, each with its own chip interrupt outcomes, an I/O fault at a chosen step, or a future
+//! dropped at a pending `await_irq`; compared call by call (result, I/O transcript, `verif_state()`)
+//! with the Lean model, which also evaluates the invariants I1-I5 on the run.
+//!
+//!   C14 seq        <chip> ; <call>@<irq words|->@<fault|->@<pend|-> ; …     verbose answer
+//!   C14 seqh <chip> ; …                                                 transcripts hashed
+//! calls: init  sleep:<0|1>  ptx  tx  prx:<s|c|d>  srx  crx  rx  rsc  listen  pcad  cad  sync:<word>
+//! (fixed parameters: SF7/125 kHz/4_5 at 868.1 MHz, 14 dBm, payload 010203, RX buffer 255 bytes,
+//!  Single(13 symbols) / Continuous / DutyCycle(1000, 2000), rx_switch_channel to 868.3 MHz)
+//! The scenario starts after `LoRa::new(radio_kind, true, delay)` (which runs `init`).
+use crate::c13::{is_126, parse_chip, ChipCfg, Variant};
+use crate::fakechip::*;
 use crate::util::*;
+use lora_modulation::{Bandwidth, CodingRate, SpreadingFactor};
+use lora_phy::mod_params::{DutyCycleParams, RadioError, RadioMode};
+use lora_phy::mod_traits::RadioKind;
+use lora_phy::{sx126x, LoRa, RxMode};
+use std::panic::AssertUnwindSafe;
 
-pub fn eval(_op: &str) -> String {
-    "bad-op".into()
+const FREQ: u32 = 868_100_000;
+const FREQ2: u32 = 868_300_000;
+
+fn show_mode(m: RadioMode) -> String {
+    match m {
+        RadioMode::Sleep => "Sleep".into(),
+        RadioMode::Standby => "Standby".into(),
+        RadioMode::FrequencySynthesis => "FrequencySynthesis".into(),
+        RadioMode::Transmit => "Transmit".into(),
+        RadioMode::Listen => "Listen".into(),
+        RadioMode::ChannelActivityDetection => "ChannelActivityDetection".into(),
+        RadioMode::Receive(RxMode::Single(n)) => format!("Receive(Single({}))", n),
+        RadioMode::Receive(RxMode::Continuous) => "Receive(Continuous)".into(),
+        RadioMode::Receive(RxMode::DutyCycle(d)) => format!("Receive(DutyCycle({},{}))", d.rx_time, d.sleep_time),
+    }
 }
 
-pub fn expand(_op: &str) -> Vec<String> {
-    vec![]
+fn show_err(e: &RadioError) -> String {
+    format!("err:{:?}", e).replace(' ', "")
 }
 
-pub fn run(_tier: &str, _seed: u64, dir: &str) {
-    let sink = Sink::new(dir);
-    sink.finish(dir, "stub", false, serde_json::json!({}));
+fn fnv_str(s: &str) -> String {
+    let mut h = Fnv::new();
+    for b in s.bytes() {
+        h.byte(b);
+    }
+    format!("{:016x}", h.0)
+}
+
+// ---------------------------------------------------------------------------------------------------
+// The abstract chip of lean/LoraVerif/Model/Chip.lean, re-implemented here so that the invariants
+// I1-I5 are ALSO evaluated on the real driver's own transcript and bookkeeping (`C14 inv …` lines),
+// independently of the Lean model of the driver.
+
+#[derive(Clone, Copy, PartialEq, Eq, Debug)]
+enum ChipMode {
+    Sleep,
+    Standby,
+    Tx,
+    Rx,
+    RxDuty,
+    Cad,
+}
+
+// bits: packetType, syncWord, regulator, tcxo, bufferBase, modulation, packet, irq, frequency, pa
+const PT: u16 = 1;
+const SW: u16 = 2;
+const REG: u16 = 4;
+const TCXO: u16 = 8;
+const BB: u16 = 16;
+const MODU: u16 = 32;
+const PKT: u16 = 64;
+const IRQ: u16 = 128;
+const FRQ: u16 = 256;
+const PA: u16 = 512;
+
+#[derive(Clone, Copy)]
+struct Track {
+    mode: ChipMode,
+    items: u16,
+    commanded_asleep: bool,
+    started_unprogrammed: bool,
+}
+
+struct Needs {
+    base: u16,
+    tx: u16,
+    rx: u16,
+    cad: u16,
+}
+
+fn needs_for(regulator: bool, tcxo: bool) -> Needs {
+    let base = PT | SW | BB | if regulator { REG } else { 0 } | if tcxo { TCXO } else { 0 };
+    Needs { base, tx: base | MODU | PKT | IRQ | FRQ | PA, rx: base | MODU | FRQ, cad: base | MODU | FRQ | IRQ }
+}
+
+impl Track {
+    fn start(&mut self, m: ChipMode, need: u16) {
+        self.mode = m;
+        if self.items & need != need {
+            self.started_unprogrammed = true;
+        }
+    }
+    fn step126(&mut self, n: &Needs, w: &[u8]) {
+        let Some(&op) = w.first() else { return };
+        let wake = op == 0xC0;
+        let irq_service = matches!(op, 0x12 | 0x02 | 0x13 | 0x1E | 0x1D | 0x14);
+        if self.mode == ChipMode::Sleep && !wake {
+            self.commanded_asleep = true;
+        } else if self.mode == ChipMode::RxDuty && !wake && !irq_service {
+            self.commanded_asleep = true;
+        }
+        if wake && (self.mode == ChipMode::Sleep || self.mode == ChipMode::RxDuty) {
+            self.mode = ChipMode::Standby;
+        }
+        match op {
+            0x84 => {
+                let cold = w.get(1).map(|a| a & 0x04 == 0).unwrap_or(true);
+                self.mode = ChipMode::Sleep;
+                if cold {
+                    self.items = 0;
+                }
+            }
+            0x80 => self.mode = ChipMode::Standby,
+            0x83 => self.start(ChipMode::Tx, n.tx),
+            0x82 => self.start(ChipMode::Rx, n.rx),
+            0x94 => self.start(ChipMode::RxDuty, n.rx),
+            0xC5 => self.start(ChipMode::Cad, n.cad),
+            0xD1 => self.mode = ChipMode::Tx,
+            0x8A => self.items |= PT,
+            0x96 => self.items |= REG,
+            0x97 => self.items |= TCXO,
+            0x8F => self.items |= BB,
+            0x8B => self.items |= MODU,
+            0x8C => self.items |= PKT,
+            0x08 => self.items |= IRQ,
+            0x86 => self.items |= FRQ,
+            0x8E => self.items |= PA,
+            0x0D => {
+                if w.len() >= 3 && w[1] == 0x07 && w[2] == 0x40 {
+                    self.items |= SW;
+                }
+            }
+            _ => {}
+        }
+    }
+    fn step127(&mut self, n: &Needs, w: &[u8]) {
+        let Some(&a0) = w.first() else { return };
+        let addr = a0 & 0x7f;
+        if addr == 0 && self.mode == ChipMode::Sleep {
+            self.commanded_asleep = true;
+        }
+        if a0 < 128 {
+            return;
+        }
+        let v = w.get(1).copied();
+        match (addr, v) {
+            (0x01, Some(v)) => {
+                if v >= 128 {
+                    self.items |= PT;
+                }
+                match v % 8 {
+                    0 => self.mode = ChipMode::Sleep,
+                    1 => self.mode = ChipMode::Standby,
+                    3 => self.start(ChipMode::Tx, n.tx),
+                    5 | 6 => self.start(ChipMode::Rx, n.rx),
+                    7 => self.start(ChipMode::Cad, n.cad),
+                    _ => {}
+                }
+            }
+            (0x39, _) => self.items |= SW,
+            (0x0e, _) => self.items |= BB,
+            (0x1d, _) => self.items |= MODU,
+            (0x20, _) => self.items |= PKT,
+            (0x11, _) => self.items |= IRQ,
+            (0x06, _) => self.items |= FRQ,
+            (0x09, _) => self.items |= PA,
+            _ => {}
+        }
+    }
+    /// one log token of fakechip.rs; only executed events count
+    fn event(&mut self, is126: bool, n: &Needs, tok: &str) {
+        if tok.ends_with('!') || tok.ends_with('~') {
+            return;
+        }
+        if tok == "Rst" {
+            self.mode = ChipMode::Standby;
+            self.items = 0;
+        } else if let Some(rest) = tok.strip_prefix('s') {
+            let hexs = rest.split('/').next().unwrap_or("");
+            let w = unhex(hexs);
+            if is126 {
+                self.step126(n, &w)
+            } else {
+                self.step127(n, &w)
+            }
+        }
+    }
+}
+
+struct CallSpec<'a> {
+    call: &'a str,
+    irq: Vec<u16>,
+    fault: Option<usize>,
+    pend: Option<usize>,
+}
+
+fn parse_call(tok: &str) -> Option<CallSpec<'_>> {
+    let p: Vec<&str> = tok.split('@').collect();
+    if p.len() != 4 {
+        return None;
+    }
+    let irq = if p[1] == "-" { vec![] } else { p[1].split(',').map(|x| x.parse::<u16>().ok()).collect::<Option<Vec<_>>>()? };
+    let fault = if p[2] == "-" { None } else { Some(p[2].parse().ok()?) };
+    let pend = if p[3] == "-" { None } else { Some(p[3].parse().ok()?) };
+    Some(CallSpec { call: p[0], irq, fault, pend })
+}
+
+pub struct CallObs {
+    pub line: String,
+    pub result: String,
+    pub log: Vec<String>,
+    pub mode_after: RadioMode,
+    pub cold_after: bool,
+    pub steps: usize,
+    pub irq_positions: Vec<usize>,
+    pub irq_reads: usize,
+    pub stop: bool,
+}
+
+/// run the calls on one driver instance; returns one observation per call executed
+fn drive<RK: RadioKind>(rk: RK, w: &Shared, calls: &[CallSpec<'_>], digest: bool) -> Option<Vec<CallObs>> {
+    let mut lora = match block_on(LoRa::new(rk, true, FakeDelay(w.clone()))) {
+        Ok(l) => l,
+        Err(_) => return None,
+    };
+    NEW_LOG.with(|l| *l.borrow_mut() = w.borrow().log.clone());
+    let mdl = lora
+        .create_modulation_params(SpreadingFactor::_7, Bandwidth::_125KHz, CodingRate::_4_5, FREQ)
+        .ok()?;
+    let mut tx_pkt = lora.create_tx_packet_params(8, false, true, false, &mdl).ok()?;
+    let rx_pkt = lora.create_rx_packet_params(8, false, 255, true, true, &mdl).ok()?;
+    let mut out = vec![];
+    for c in calls {
+        {
+            let mut m = w.borrow_mut();
+            m.log.clear();
+            m.step = 0;
+            m.fault = c.fault;
+            m.pend_at = c.pend;
+            m.irq_script = c.irq.iter().copied().collect();
+            m.irq_reads = 0;
+        }
+        let mut buf = [0u8; 255];
+        let parts: Vec<&str> = c.call.split(':').collect();
+        let res: Option<Option<String>> = guarded(AssertUnwindSafe(|| {
+            let unit = |r: Option<Result<(), RadioError>>| -> String {
+                match r {
+                    None => "DROPPED".into(),
+                    Some(Ok(())) => "ok".into(),
+                    Some(Err(e)) => show_err(&e),
+                }
+            };
+            Some(match parts.as_slice() {
+                ["init"] => unit(block_on_or_drop(lora.init())),
+                ["sleep", wm] => unit(block_on_or_drop(lora.sleep(*wm == "1"))),
+                ["ptx"] => unit(block_on_or_drop(lora.prepare_for_tx(&mdl, &mut tx_pkt, 14, &[1, 2, 3]))),
+                ["tx"] => unit(block_on_or_drop(lora.tx())),
+                ["prx", k] => {
+                    let mode = match *k {
+                        "s" => RxMode::Single(13),
+                        "c" => RxMode::Continuous,
+                        "d" => RxMode::DutyCycle(DutyCycleParams { rx_time: 1000, sleep_time: 2000 }),
+                        _ => return None,
+                    };
+                    unit(block_on_or_drop(lora.prepare_for_rx(mode, &mdl, &rx_pkt)))
+                }
+                ["srx"] => unit(block_on_or_drop(lora.start_rx())),
+                ["crx"] | ["rx"] => {
+                    let r = if parts[0] == "crx" {
+                        block_on_or_drop(lora.complete_rx(&rx_pkt, &mut buf))
+                    } else {
+                        block_on_or_drop(lora.rx(&rx_pkt, &mut buf))
+                    };
+                    match r {
+                        None => "DROPPED".into(),
+                        Some(Ok((n, _st))) => format!("ok:rx({},{})", n, hex(&buf[..n as usize])),
+                        Some(Err(e)) => show_err(&e),
+                    }
+                }
+                ["rsc"] => unit(block_on_or_drop(lora.rx_switch_channel(FREQ2))),
+                ["listen"] => unit(block_on_or_drop(lora.listen(FREQ, Bandwidth::_125KHz))),
+                ["pcad"] => unit(block_on_or_drop(lora.prepare_for_cad(&mdl))),
+                ["cad"] => match block_on_or_drop(lora.cad(&mdl)) {
+                    None => "DROPPED".into(),
+                    Some(Ok(b)) => format!("ok:cad({})", b as u8),
+                    Some(Err(e)) => show_err(&e),
+                },
+                ["sync", wd] => unit(block_on_or_drop(lora.set_lora_sync_word(wd.parse().ok()?))),
+                _ => return None,
+            })
+        }));
+        let (res_s, stop) = match res {
+            None => ("PANIC".to_string(), true),
+            Some(None) => return None,
+            Some(Some(s)) => (s, false),
+        };
+        let m = w.borrow();
+        let tr = m.transcript();
+        let (mode, cold, cal) = lora.verif_state();
+        let irq_positions: Vec<usize> = {
+            // step index of every await_irq (delays are logged but are not steps)
+            let mut v = vec![];
+            let mut step = 0usize;
+            for t in &m.log {
+                if t.starts_with('D') {
+                    continue;
+                }
+                if t.starts_with('I') {
+                    v.push(step);
+                }
+                step += 1;
+            }
+            v
+        };
+        out.push(CallObs {
+            result: res_s.clone(),
+            log: m.log.clone(),
+            mode_after: mode,
+            cold_after: cold,
+            line: format!("{} {} {},{},{}", res_s, if digest { fnv_str(&tr) } else { tr }, show_mode(mode), cold, cal),
+            steps: m.step,
+            irq_positions,
+            irq_reads: m.irq_reads,
+            stop,
+        });
+        if stop {
+            break;
+        }
+    }
+    Some(out)
+}
+
+/// the same, through `LorawanRadio` (lorawan_radio.rs): `C14 adp <chip> ; <call>@irq@fault@pend ; …`
+/// calls: atx  asetup:<s|c>  arxs  arxc  alp
+fn drive_adapter<RK: RadioKind>(rk: RK, w: &Shared, calls: &[CallSpec<'_>], p_max: u8) -> Option<Vec<CallObs>> {
+    use lora_modulation::BaseBandModulationParams;
+    use lora_phy::lorawan_radio::{Error, LorawanRadio};
+    use lorawan_device::async_device::radio::{PhyRxTx, RfConfig, RxConfig, RxMode as LwRxMode, RxStatus, TxConfig};
+    let _ = p_max;
+    let lora = block_on(LoRa::new(rk, true, FakeDelay(w.clone()))).ok()?;
+    let mut radio: LorawanRadio<RK, FakeDelay, 22> = lora.into();
+    let rf = RfConfig {
+        frequency: FREQ,
+        bb: BaseBandModulationParams::new(SpreadingFactor::_7, Bandwidth::_125KHz, CodingRate::_4_5),
+        max_payload_len: 255,
+    };
+    let mut out = vec![];
+    for c in calls {
+        {
+            let mut m = w.borrow_mut();
+            m.log.clear();
+            m.step = 0;
+            m.fault = c.fault;
+            m.pend_at = c.pend;
+            m.irq_script = c.irq.iter().copied().collect();
+            m.irq_reads = 0;
+        }
+        let mut buf = [0u8; 255];
+        let parts: Vec<&str> = c.call.split(':').collect();
+        let show_e = |e: Error| -> String {
+            match e {
+                Error::Radio(r) => show_err(&r),
+                Error::NoRxParams => "err:NoRxParams".into(),
+            }
+        };
+        let res: Option<Option<String>> = guarded(AssertUnwindSafe(|| {
+            Some(match parts.as_slice() {
+                ["atx"] => match block_on_or_drop(radio.tx(TxConfig { pw: 14, rf }, &[1, 2, 3])) {
+                    None => "DROPPED".into(),
+                    Some(Ok(_)) => "ok".into(),
+                    Some(Err(e)) => show_e(e),
+                },
+                ["asetup", k] => {
+                    let mode = match *k {
+                        "s" => LwRxMode::Single { ms: 0 },
+                        "c" => LwRxMode::Continuous,
+                        _ => return None,
+                    };
+                    match block_on_or_drop(radio.setup_rx(RxConfig { rf, mode })) {
+                        None => "DROPPED".into(),
+                        Some(Ok(())) => "ok".into(),
+                        Some(Err(e)) => show_e(e),
+                    }
+                }
+                ["arxs"] => match block_on_or_drop(radio.rx_single(&mut buf)) {
+                    None => "DROPPED".into(),
+                    Some(Ok(RxStatus::Rx(n, _q))) => format!("ok:rx({},{})", n, hex(&buf[..n])),
+                    Some(Ok(RxStatus::RxTimeout)) => "ok:timeout".into(),
+                    Some(Err(e)) => show_e(e),
+                },
+                ["arxc"] => match block_on_or_drop(radio.rx_continuous(&mut buf)) {
+                    None => "DROPPED".into(),
+                    Some(Ok((n, _q))) => format!("ok:rx({},{})", n, hex(&buf[..n])),
+                    Some(Err(e)) => show_e(e),
+                },
+                ["alp"] => match block_on_or_drop(radio.low_power()) {
+                    None => "DROPPED".into(),
+                    Some(Ok(())) => "ok".into(),
+                    Some(Err(e)) => show_e(e),
+                },
+                _ => return None,
+            })
+        }));
+        let (res_s, stop) = match res {
+            None => ("PANIC".to_string(), true),
+            Some(None) => return None,
+            Some(Some(s)) => (s, false),
+        };
+        let m = w.borrow();
+        let tr = m.transcript();
+        let irq_positions: Vec<usize> = {
+            let mut v = vec![];
+            let mut step = 0usize;
+            for t in &m.log {
+                if t.starts_with('D') {
+                    continue;
+                }
+                if t.starts_with('I') {
+                    v.push(step);
+                }
+                step += 1;
+            }
+            v
+        };
+        out.push(CallObs {
+            result: res_s.clone(),
+            log: m.log.clone(),
+            mode_after: RadioMode::Standby,
+            cold_after: false,
+            line: format!("{} {}", res_s, fnv_str(&tr)),
+            steps: m.step,
+            irq_positions,
+            irq_reads: m.irq_reads,
+            stop,
+        });
+        if stop {
+            break;
+        }
+    }
+    Some(out)
+}
+
+thread_local! {
+    /// transcript of `LoRa::new` of the last `drive`
+    static NEW_LOG: std::cell::RefCell<Vec<String>> = std::cell::RefCell::new(vec![]);
+}
+
+fn run_seq_with_new_log(chip: &str, calls: &[&str]) -> Option<(Vec<CallObs>, Vec<String>)> {
+    let obs = run_seq(chip, calls, true)?;
+    Some((obs, NEW_LOG.with(|l| l.borrow().clone())))
+}
+
+fn irq_default(cfg: &ChipCfg) -> u16 {
+    if is_126(cfg.variant) {
+        0x0283
+    } else {
+        0x4c
+    }
+}
+
+fn run_seq(chip: &str, calls: &[&str], digest: bool) -> Option<Vec<CallObs>> {
+    run_seq_any(chip, calls, digest, false)
+}
+
+fn run_seq_any(chip: &str, calls: &[&str], digest: bool, adapter: bool) -> Option<Vec<CallObs>> {
+    let cfg = parse_chip(chip)?;
+    let specs: Vec<CallSpec<'_>> = calls.iter().map(|c| parse_call(c)).collect::<Option<Vec<_>>>()?;
+    // the retention list of a chip that has just been reset is empty (register 0x029F = 0)
+    let w = crate::c13::make_world(&cfg, 1, if is_126(cfg.variant) { "29f=00" } else { "-" })?;
+    w.borrow_mut().irq_default = irq_default(&cfg);
+    let tcxo = |k: u8| {
+        use sx126x::TcxoCtrlVoltage::*;
+        [Ctrl1V6, Ctrl1V7, Ctrl1V8, Ctrl2V2, Ctrl2V4, Ctrl2V7, Ctrl3V0, Ctrl3V3][k as usize & 7]
+    };
+    macro_rules! with126 {
+        ($chip:expr) => {{
+            let rk = sx126x::Sx126x::new(
+                FakeSpi(w.clone()),
+                FakeIv(w.clone()),
+                sx126x::Config { chip: $chip, tcxo_ctrl: cfg.tcxo.map(tcxo), use_dcdc: cfg.dcdc, rx_boost: cfg.boost },
+            );
+            if adapter {
+                drive_adapter(rk, &w, &specs, 22)
+            } else {
+                drive(rk, &w, &specs, digest)
+            }
+        }};
+    }
+    macro_rules! with127 {
+        ($chip:expr) => {{
+            let rk = lora_phy::sx127x::Sx127x::new(
+                FakeSpi(w.clone()),
+                FakeIv(w.clone()),
+                lora_phy::sx127x::Config { chip: $chip, tcxo_used: cfg.tcxo_used, tx_boost: cfg.tx_boost, rx_boost: cfg.boost },
+            );
+            if adapter {
+                drive_adapter(rk, &w, &specs, 20)
+            } else {
+                drive(rk, &w, &specs, digest)
+            }
+        }};
+    }
+    match cfg.variant {
+        Variant::Sx1261 => with126!(sx126x::Sx1261),
+        Variant::Sx1262 => with126!(sx126x::Sx1262),
+        Variant::WlHp => with126!(sx126x::Stm32wl { use_high_power_pa: true }),
+        Variant::WlLp => with126!(sx126x::Stm32wl { use_high_power_pa: false }),
+        Variant::Sx1276 => with127!(lora_phy::sx127x::Sx1276),
+        Variant::Sx1272 => with127!(lora_phy::sx127x::Sx1272),
+    }
+}
+
+/// I1-I5 evaluated on the real driver's run (same predicates, same order as `Driver.C14.runSeq`)
+fn verdict(chip: &str, calls: &[&str]) -> Option<String> {
+    let cfg = parse_chip(chip)?;
+    let is126 = is_126(cfg.variant);
+    let needs = if is126 { needs_for(cfg.dcdc, cfg.tcxo.is_some()) } else { needs_for(false, false) };
+    // the constructor's init: run it as an explicit first call on a driver that `new` already initialised
+    // is not the same thing, so replay it through the tracker from the transcript of `new`
+    let (obs, new_log) = run_seq_with_new_log(chip, calls)?;
+    let mut t = Track { mode: ChipMode::Standby, items: 0, commanded_asleep: false, started_unprogrammed: false };
+    for tok in &new_log {
+        t.event(is126, &needs, tok);
+    }
+    let mut before = RadioMode::Standby;
+    for (i, o) in obs.iter().enumerate() {
+        for tok in &o.log {
+            t.event(is126, &needs, tok);
+        }
+        let n = i + 1;
+        let reported = o.result == "err:TransmitTimeout" || o.result == "err:ReceiveTimeout";
+        if t.commanded_asleep {
+            return Some(format!("I1-commanded-asleep@call{}", n));
+        } else if t.started_unprogrammed {
+            return Some(format!("I3-started-unprogrammed@call{}", n));
+        } else if t.items & needs.base != needs.base && !o.cold_after {
+            return Some(format!("I2-config-lost-but-not-cold_start@call{}", n));
+        } else if reported
+            && before != RadioMode::Receive(RxMode::Continuous)
+            && !(t.mode == ChipMode::Standby && o.mode_after == RadioMode::Standby)
+        {
+            return Some(format!("I4-not-standby-after-failure@call{}", n));
+        } else if o.result == "err:InvalidRadioMode" && !o.log.is_empty() {
+            return Some(format!("I5-chip-commanded-by-refused-call@call{}", n));
+        }
+        before = o.mode_after;
+        if o.stop {
+            break;
+        }
+    }
+    Some("ok".into())
+}
+
+fn parse_line(op: &str) -> Option<(bool, String, Vec<String>)> {
+    let rest = op.strip_prefix("C14 ")?;
+    let (digest, rest) = if let Some(r) = rest.strip_prefix("seqh ") {
+        (true, r)
+    } else if let Some(r) = rest.strip_prefix("inv ") {
+        (true, r)
+    } else if let Some(r) = rest.strip_prefix("adp ") {
+        (true, r)
+    } else if let Some(r) = rest.strip_prefix("seq ") {
+        (false, r)
+    } else {
+        return None;
+    };
+    let mut parts = rest.split(';').map(|s| s.trim().to_string());
+    let chip = parts.next()?;
+    Some((digest, chip, parts.collect()))
+}
+
+pub fn eval(op: &str) -> String {
+    let Some((digest, chip, calls)) = parse_line(op) else { return "bad-op".into() };
+    let cr: Vec<&str> = calls.iter().map(|s| s.as_str()).collect();
+    if op.starts_with("C14 inv ") {
+        return verdict(&chip, &cr).unwrap_or("bad-op".into());
+    }
+    if op.starts_with("C14 adp ") {
+        return match run_seq_any(&chip, &cr, true, true) {
+            Some(obs) => obs.iter().map(|o| o.line.clone()).collect::<Vec<_>>().join(" ; "),
+            None => "bad-op".into(),
+        };
+    }
+    match run_seq(&chip, &cr, digest) {
+        Some(obs) => obs.iter().map(|o| o.line.clone()).collect::<Vec<_>>().join(" ; "),
+        None => "bad-op".into(),
+    }
+}
+
+pub fn expand(op: &str) -> Vec<String> {
+    match op.strip_prefix("C14 seqh ") {
+        Some(r) => vec![format!("C14 seq {}", r)],
+        None => vec![],
+    }
+}
+
+pub const ALPHABET: [&str; 16] =
+    ["init", "sleep:0", "sleep:1", "ptx", "tx", "prx:s", "prx:c", "prx:d", "srx", "crx", "rx", "rsc", "listen", "pcad", "cad", "sync:5156"];
+
+fn irq_scripts(is126: bool) -> Vec<Vec<u16>> {
+    if is126 {
+        // TxDone, RxDone, timeout, RxDone+CRC error, header error then timeout, spurious then default,
+        // two spurious, preamble then default, CadDone, CadDone+detected, header valid
+        vec![vec![0x0001], vec![0x0002], vec![0x0200], vec![0x0042], vec![0x0020, 0x0200], vec![0], vec![0, 0], vec![0x0004], vec![0x0080], vec![0x0180], vec![0x0010, 0x0002]]
+    } else {
+        vec![vec![0x08], vec![0x40], vec![0x80], vec![0x60], vec![0x10, 0x80], vec![0], vec![0, 0], vec![0x10], vec![0x04], vec![0x05], vec![0x20]]
+    }
+}
+
+fn plain(calls: &[&str]) -> Vec<String> {
+    calls.iter().map(|c| format!("{}@-@-@-", c)).collect()
+}
+
+fn line(kind: &str, chip: &str, calls: &[String]) -> String {
+    format!("C14 {} {} ; {}", kind, chip, calls.join(" ; "))
+}
+
+fn classify(ans: &str) -> String {
+    let last = ans.rsplit(" ; ").next().unwrap_or("");
+    let r = last.split(' ').next().unwrap_or("");
+    if r.starts_with("ok") {
+        "last-ok".into()
+    } else if r == "PANIC" || r == "DROPPED" {
+        format!("last-{}", r)
+    } else {
+        format!("last-{}", r.split('(').next().unwrap_or(r))
+    }
+}
+
+/// one scenario = two op lines: the run itself (hashed transcripts) and the invariant verdict
+fn emit2(sink: &mut Sink, op: &str, ans: &str, class: &str) {
+    sink.case(op, ans, class, true);
+    let inv = op.replacen("C14 seqh ", "C14 inv ", 1);
+    let v = eval(&inv);
+    sink.case(&inv, &v, &format!("inv-{}", v.split('@').next().unwrap_or("ok")), true);
+}
+
+pub fn run(tier: &str, seed: u64, dir: &str) {
+    let mut rng = Rng::new(seed);
+    let mut sink = Sink::new(dir);
+    let thorough = tier == "thorough";
+    let depth = if thorough { 4 } else { 3 };
+    let chips: Vec<&str> = if thorough { vec!["1262/d", "1261/t1", "1276", "1272/x"] } else { vec!["1262/d", "1276"] };
+    for chip in &chips {
+        let is126 = is_126(parse_chip(chip).unwrap().variant);
+        // all sequences up to `depth`
+        let mut seqs: Vec<Vec<&str>> = vec![vec![]];
+        let mut frontier: Vec<Vec<&str>> = vec![vec![]];
+        for _ in 0..depth {
+            let mut next = vec![];
+            for s in &frontier {
+                for a in ALPHABET {
+                    let mut t = s.clone();
+                    t.push(a);
+                    next.push(t);
+                }
+            }
+            seqs.extend(next.iter().cloned());
+            frontier = next;
+        }
+        seqs.remove(0);
+        for s in &seqs {
+            let base = plain(s);
+            let Some(obs) = run_seq(chip, &base.iter().map(|x| x.as_str()).collect::<Vec<_>>(), true) else { continue };
+            let op = line("seqh", chip, &base);
+            let ans = obs.iter().map(|o| o.line.clone()).collect::<Vec<_>>().join(" ; ");
+            emit2(&mut sink, &op, &ans, &format!("{}-plain-{}", if is126 { "sx126x" } else { "sx127x" }, classify(&ans)));
+            // depth-4 sequences (thorough): faults / drops / outcomes only on a seeded fortieth
+            let full = s.len() <= 3 || rng.chance(1, 40);
+            if !full || obs.len() < s.len() {
+                continue;
+            }
+            // a fault at every I/O step of every call of the sequence; a drop at every await_irq
+            for (j, o) in obs.iter().enumerate() {
+                // faults in an earlier call only matter through the calls that follow: always done for the last
+                // two calls, for earlier ones on a seeded half
+                if j + 2 < obs.len() && rng.chance(1, 2) {
+                    continue;
+                }
+                for k in 0..o.steps {
+                    let mut v = base.clone();
+                    v[j] = format!("{}@-@{}@-", s[j], k);
+                    let op = line("seqh", chip, &v);
+                    let a = eval(&op);
+                    emit2(&mut sink, &op, &a, &format!("{}-fault-{}", if is126 { "sx126x" } else { "sx127x" }, classify(&a)));
+                }
+                for &k in &o.irq_positions {
+                    let mut v = base.clone();
+                    v[j] = format!("{}@-@-@{}", s[j], k);
+                    let op = line("seqh", chip, &v);
+                    let a = eval(&op);
+                    emit2(&mut sink, &op, &a, &format!("{}-drop-{}", if is126 { "sx126x" } else { "sx127x" }, classify(&a)));
+                }
+                if o.irq_reads > 0 {
+                    for sc in irq_scripts(is126) {
+                        let mut v = base.clone();
+                        v[j] = format!("{}@{}@-@-", s[j], sc.iter().map(|x| x.to_string()).collect::<Vec<_>>().join(","));
+                        let op = line("seqh", chip, &v);
+                        let a = eval(&op);
+                        emit2(&mut sink, &op, &a, &format!("{}-irq-{}", if is126 { "sx126x" } else { "sx127x" }, classify(&a)));
+                        // an outcome combined with a fault in the error path it triggers
+                        if j + 1 == obs.len() {
+                            if let Some(ob2) = run_seq(chip, &v.iter().map(|x| x.as_str()).collect::<Vec<_>>(), true) {
+                                if let Some(l) = ob2.last() {
+                                    for k in 0..l.steps {
+                                        let mut v2 = v.clone();
+                                        v2[j] = format!("{}@{}@{}@-", s[j], sc.iter().map(|x| x.to_string()).collect::<Vec<_>>().join(","), k);
+                                        let op = line("seqh", chip, &v2);
+                                        let a = eval(&op);
+                                        emit2(&mut sink, &op, &a, &format!("{}-irq+fault-{}", if is126 { "sx126x" } else { "sx127x" }, classify(&a)));
+                                    }
+                                }
+                            }
+                        }
+                    }
+                }
+            }
+        }
+        // the LoRaWAN adapter: every sequence of its five calls up to depth 3, faults / drops / outcomes on every call
+        let adp = ["atx", "asetup:s", "asetup:c", "arxs", "arxc", "alp"];
+        let mut aseqs: Vec<Vec<&str>> = vec![];
+        for a in adp {
+            aseqs.push(vec![a]);
+            for b in adp {
+                aseqs.push(vec![a, b]);
+                for c in adp {
+                    aseqs.push(vec![a, b, c]);
+                }
+            }
+        }
+        for sq in &aseqs {
+            let base = plain(sq);
+            let Some(obs) = run_seq_any(chip, &base.iter().map(|x| x.as_str()).collect::<Vec<_>>(), true, true) else { continue };
+            let op = line("adp", chip, &base);
+            let ans = obs.iter().map(|o| o.line.clone()).collect::<Vec<_>>().join(" ; ");
+            sink.case(&op, &ans, &format!("adapter-plain-{}", classify(&ans)), true);
+            if obs.len() < sq.len() {
+                continue;
+            }
+            for (j, o) in obs.iter().enumerate() {
+                for k in 0..o.steps {
+                    let mut v = base.clone();
+                    v[j] = format!("{}@-@{}@-", sq[j], k);
+                    let op = line("adp", chip, &v);
+                    let a = eval(&op);
+                    sink.case(&op, &a, &format!("adapter-fault-{}", classify(&a)), true);
+                }
+                for &k in &o.irq_positions {
+                    let mut v = base.clone();
+                    v[j] = format!("{}@-@-@{}", sq[j], k);
+                    let op = line("adp", chip, &v);
+                    let a = eval(&op);
+                    sink.case(&op, &a, &format!("adapter-drop-{}", classify(&a)), true);
+                }
+                if o.irq_reads > 0 {
+                    for sc in irq_scripts(is126) {
+                        let mut v = base.clone();
+                        v[j] = format!("{}@{}@-@-", sq[j], sc.iter().map(|x| x.to_string()).collect::<Vec<_>>().join(","));
+                        let op = line("adp", chip, &v);
+                        let a = eval(&op);
+                        sink.case(&op, &a, &format!("adapter-irq-{}", classify(&a)), true);
+                    }
+                }
+            }
+        }
+        // a few verbose lines as readable samples
+        for s in [vec!["ptx", "tx"], vec!["prx:s", "rx"], vec!["sleep:0", "prx:d", "srx"], vec!["pcad", "cad"]] {
+            let op = line("seq", chip, &plain(&s));
+            let a = eval(&op);
+            sink.case(&op, &a, "verbose-sample", true);
+        }
+    }
+    sink.finish(
+        dir,
+        "every sequence of API calls up to the tier's depth (3 quick / 4 thorough) over the 16-call alphabet {init, sleep warm/cold, prepare_for_tx, tx, prepare_for_rx single/continuous/duty-cycle, start_rx, complete_rx, rx, rx_switch_channel, listen, prepare_for_cad, cad, set_lora_sync_word} on the real LoRa<Sx126x<Sx1262>> and LoRa<Sx127x<Sx1276>> (thorough: + Sx1261 with TCXO, Sx1272 with PA_BOOST) over the fake chips; for each sequence (depth 4: a seeded fortieth): an I/O fault at every SPI / busy / IRQ / RF-switch / reset step of the calls, a future dropped at every await_irq, 11 chip interrupt outcomes (done, timeout, CRC error, header error, spurious, preamble first, CAD done/detected) on every call that reads the IRQ status, and every fault position inside the error path such an outcome triggers. Compared per call: result, the full I/O transcript (hashed in digest lines) and verif_state() = (radio_mode, cold_start, calibrate_image); the Lean side also evaluates I1-I5 on the run, and `inv` lines evaluate the same invariants on the real driver's own transcript with an independent Rust tracker (expected verdict: ok). `adp` lines: every sequence up to depth 3 of the LoRaWAN adapter's calls (LorawanRadio tx / setup_rx single+continuous / rx_single / rx_continuous / low_power) with the same faults, drops and interrupt outcomes. Distinct = distinct op lines; every line is a concrete scenario.",
+        false,
+        serde_json::json!({"alphabet": ALPHABET, "depth": depth, "chips": chips}),
+    );
 }
